@@ -99,6 +99,7 @@ pub fn parity(rep: &mut Report, data: &[u8]) -> bool {
     let expect = d.interleaved();
     let replay = J::obj().set("flac", J::hex(data)).set("origin", "fuzz artifact");
     c03::judge_valid_stream(rep, "reference-valid fuzz input", data, &expect, &params, &replay, false);
+    c03::judge_stream_reader(rep, "reference-valid fuzz input", data, &d, &replay);
     true
 }
 
